@@ -1,6 +1,7 @@
 import GdslModel.Lemmas.Bfs
 import GdslModel.Lemmas.Dfs
 import GdslModel.Lemmas.Pfs
+import GdslModel.Lemmas.Extra
 /-!
 # C09 — search_cycle returns a genuine cycle through the root iff one exists
 `A = accAdj adj acc`. With `adj = outAdj s` these are the directed statements, with
@@ -108,5 +109,31 @@ theorem Cycle.bfs_minimal (adj : K → List (K × E)) (acc : K → K → E → B
 /-- the self-loop of finding F3: `r→a, r→r` gives the one-edge cycle `[(r,r)]` -/
 example : (searchPath (K := Nat) (E := Nat) (fun u => if u = 0 then [(1, 0), (0, 1)] else [])
     (fun _ _ _ => true) (fun _ => 0) .bfs 0 none true 4).map (·.1) = some (some [(0, 0, 1)]) := by decide
+
+/-- undirected flavours, no filter: under the symmetry invariant a closed walk through the root exists
+    exactly when the root has an incident edge (go to the peer and come back over the opposite half) -/
+theorem Cycle.undirected_iff_incident (s : Store K E) (h : Mirror s) (r : K) :
+    (∃ q, IsPath (unAdj s) r r q) ↔ unAdj s r ≠ [] :=
+  cycle_undirected_iff s h r
+
+/-- hence an unfiltered undirected `search_cycle` (any of the four kinds) returns a cycle exactly when
+    the root is not an orphan -/
+theorem Cycle.undirected_search_iff (s : Store K E) (h : Mirror s) (nval : K → Int) (kind : Kind)
+    (root : K) (target : Option K) (fuel : Nat) (res : Option (List (Edge K E))) (run : Run K E)
+    (hs : searchPath (unAdj s) (fun _ _ _ => true) nval kind root target true fuel = some (res, run)) :
+    res.isSome = true ↔ unAdj s root ≠ [] := by
+  rw [← Cycle.undirected_iff_incident s h root]
+  have hacc : accAdj (unAdj s) (fun _ _ _ => true) = unAdj s := accAdj_true _
+  cases res with
+  | some p =>
+    have := Cycle.sound _ _ nval kind root target fuel p run hs
+    rw [hacc] at this
+    simp only [Option.isSome_some, true_iff]
+    exact ⟨p, this⟩
+  | none =>
+    have := Cycle.complete _ _ nval kind root target fuel run hs
+    rw [hacc] at this
+    simp only [Option.isSome_none, Bool.false_eq_true, false_iff]
+    exact this
 
 end G
